@@ -17,8 +17,24 @@ impl UdpBuilder {
         Ok(UdpBuilder { id })
     }
 
+    pub fn new_v6() -> io::Result<UdpBuilder> {
+        UdpBuilder::new_v4()
+    }
+
     pub fn reuse_address(&self, _on: bool) -> io::Result<&UdpBuilder> {
         Ok(self)
+    }
+
+    pub fn ttl(&self, _ttl: u32) -> io::Result<&UdpBuilder> {
+        Ok(self)
+    }
+
+    pub fn only_v6(&self, _on: bool) -> io::Result<&UdpBuilder> {
+        Ok(self)
+    }
+
+    pub fn take_error(&self) -> io::Result<Option<io::Error>> {
+        Ok(None)
     }
 
     pub fn bind(&self, addr: SocketAddr) -> io::Result<mio::net::RawUdp> {
@@ -45,6 +61,18 @@ impl TcpBuilder {
 
     pub fn reuse_address(&self, _on: bool) -> io::Result<&TcpBuilder> {
         Ok(self)
+    }
+
+    pub fn ttl(&self, _ttl: u32) -> io::Result<&TcpBuilder> {
+        Ok(self)
+    }
+
+    pub fn only_v6(&self, _on: bool) -> io::Result<&TcpBuilder> {
+        Ok(self)
+    }
+
+    pub fn take_error(&self) -> io::Result<Option<io::Error>> {
+        Ok(None)
     }
 
     pub fn bind<A: std::net::ToSocketAddrs>(&self, addr: A) -> io::Result<&TcpBuilder> {
@@ -89,5 +117,43 @@ pub mod unix {
             dsim::with(|w| w.socks[self.id].reuse_port = on);
             Ok(self)
         }
+    }
+}
+
+/// The socket-option extension trait of net2, for what `UdpBuilder::bind` hands out here. The
+/// receive buffer size is the one option with an observable effect: it sets the capacity of the
+/// simulated receive queue (about 2.3 kB of kernel memory per queued datagram of this size).
+pub trait UdpSocketExt {
+    fn set_recv_buffer_size(&self, size: usize) -> io::Result<()>;
+    fn recv_buffer_size(&self) -> io::Result<usize>;
+    fn set_send_buffer_size(&self, size: usize) -> io::Result<()>;
+    fn send_buffer_size(&self) -> io::Result<usize>;
+    fn set_nonblocking(&self, on: bool) -> io::Result<()>;
+    fn set_broadcast(&self, on: bool) -> io::Result<()>;
+    fn set_ttl(&self, ttl: u32) -> io::Result<()>;
+}
+
+impl UdpSocketExt for mio::net::RawUdp {
+    fn set_recv_buffer_size(&self, size: usize) -> io::Result<()> {
+        dsim::with(|w| w.socks[self.0].cap = (size / 2304).max(1));
+        Ok(())
+    }
+    fn recv_buffer_size(&self) -> io::Result<usize> {
+        Ok(dsim::with(|w| w.socks[self.0].cap) * 2304)
+    }
+    fn set_send_buffer_size(&self, _size: usize) -> io::Result<()> {
+        Ok(())
+    }
+    fn send_buffer_size(&self) -> io::Result<usize> {
+        Ok(212_992)
+    }
+    fn set_nonblocking(&self, _on: bool) -> io::Result<()> {
+        Ok(())
+    }
+    fn set_broadcast(&self, _on: bool) -> io::Result<()> {
+        Ok(())
+    }
+    fn set_ttl(&self, _ttl: u32) -> io::Result<()> {
+        Ok(())
     }
 }
